@@ -69,9 +69,8 @@ static int parse_hex_bytes(const char* h, unsigned char** out, size_t* n) {
 
 static int parse_count(const char* s, size_t* out) {
   if (!*s) return 0;
-  size_t v = 0; size_t l = 0;
-  for (; *s; s++, l++) { if (*s < '0' || *s > '9' || l > 8) return 0; v = v * 10 + (size_t)(*s - '0'); }
-  if (v > MAXCOUNT) return 0;
+  size_t v = 0;
+  for (; *s; s++) { if (*s < '0' || *s > '9') return 0; v = v * 10 + (size_t)(*s - '0'); if (v > MAXCOUNT) return 0; }
   *out = v; return 1;
 }
 
